@@ -460,6 +460,7 @@ func checkDiff(e *Env, r *cliRunner, c *CliCase) {
 		sc := c.Cmd
 		sc.SwapBases = true
 		sc.SrcRemote = false
+		sc.DstRemote = false
 		sres := r.run1(sc, "swap")
 		if len(sres.panics) == 0 && errors.Is(sres.err, cmd.ErrDiffFound) != gotDiff {
 			e.Violate("C09.symmetric", "diff src->dest says difference=%v, dest->src says %v (%v)", gotDiff, errors.Is(sres.err, cmd.ErrDiffFound), sres.err)
@@ -469,6 +470,7 @@ func checkDiff(e *Env, r *cliRunner, c *CliCase) {
 	self := c.Cmd
 	self.SwapBases = false
 	self.SrcRemote = false
+	self.DstRemote = false
 	selfRes := runSelfDiff(e, r, self)
 	if selfRes != nil && len(selfRes.panics) == 0 && selfRes.err != nil && !srcsAnyAbsent(srcs, rels) {
 		e.Violate("C09.self", "diff of a file with itself returned %v", selfRes.err)
